@@ -188,36 +188,7 @@ func init() {
 			r := c.R
 			b := evalBatch("C10", "folding")
 			n := c.N(900, 40000)
-			constGen := func() *GT {
-				gc := GenCfg{MaxDepth: 2 + r.Intn(3), MaxWidth: 3, Custom: true, Ifs: r.Bool(), Convert: r.Intn(3) == 0, Lists: r.Intn(3) == 0, UnaryBool: r.Intn(5) == 0}
-				g := &Gen{r: r, c: gc}
-				// mostly constants: variables replaced by constants with probability 3/4
-				var t *GT
-				if r.Bool() {
-					t = g.Bool(gc.MaxDepth)
-				} else {
-					t = g.Int(gc.MaxDepth)
-				}
-				var walk func(x *GT)
-				walk = func(x *GT) {
-					for i, ch := range x.Ch {
-						if ch.Kind == "var" && r.Intn(4) != 0 {
-							if strings.HasPrefix(ch.Name, "b") {
-								x.Ch[i] = gconst(r.Bool())
-							} else if strings.HasPrefix(ch.Name, "i") {
-								x.Ch[i] = gconst(int64(r.Intn(4)))
-							}
-						} else {
-							walk(ch)
-						}
-					}
-				}
-				walk(t)
-				if t.Kind != "op" && t.Kind != "if" {
-					t = gop("c_id", t)
-				}
-				return t
-			}
+			constGen := func() *GT { return constRichTree(r) }
 			for k := 0; k < n; k++ {
 				t := constGen()
 				if r.Intn(6) == 0 { // failing constant behind a guard
@@ -321,4 +292,36 @@ func randStatelessHeavy(r *Rand) []string {
 		s = append(s, "not_registered")
 	}
 	return s
+}
+
+// a tree rich in constant sub-expressions (constant folding has something to do)
+func constRichTree(r *Rand) *GT {
+	gc := GenCfg{MaxDepth: 2 + r.Intn(3), MaxWidth: 3, Custom: true, Ifs: r.Bool(), Convert: r.Intn(3) == 0, Lists: r.Intn(3) == 0, UnaryBool: r.Intn(5) == 0}
+	g := &Gen{r: r, c: gc}
+	// mostly constants: variables replaced by constants with probability 3/4
+	var t *GT
+	if r.Bool() {
+		t = g.Bool(gc.MaxDepth)
+	} else {
+		t = g.Int(gc.MaxDepth)
+	}
+	var walk func(x *GT)
+	walk = func(x *GT) {
+		for i, ch := range x.Ch {
+			if ch.Kind == "var" && r.Intn(4) != 0 {
+				if strings.HasPrefix(ch.Name, "b") {
+					x.Ch[i] = gconst(r.Bool())
+				} else if strings.HasPrefix(ch.Name, "i") {
+					x.Ch[i] = gconst(int64(r.Intn(4)))
+				}
+			} else {
+				walk(ch)
+			}
+		}
+	}
+	walk(t)
+	if t.Kind != "op" && t.Kind != "if" {
+		t = gop("c_id", t)
+	}
+	return t
 }
